@@ -888,6 +888,14 @@ class _Helper:
         self.structured: Optional[List[ast.stmt]] = None
         self.loopconst = False
         self.loopret: Optional[int] = None
+        ys = [x for x in _walk_scope(node) if isinstance(x, (ast.Yield, ast.YieldFrom))]
+        rs = [x for x in _walk_scope(node) if isinstance(x, ast.Return)]
+        # a generator whose yields are statements of their own (`yield e`)
+        self.gen = bool(ys) and all(r.value is None for r in rs) and not any(
+            isinstance(x, ast.Await) for x in _walk_scope(node)) and all(
+                any(isinstance(s_, ast.Expr) and s_.value is y for s_ in _walk_scope(node))
+                for y in ys)
+        self.gen_returns = bool(rs)
         if self.expr is None and not self.proc and not any(
                 isinstance(x, (ast.Yield, ast.YieldFrom, ast.Await))
                 for x in _walk_scope(node)):
@@ -1110,6 +1118,232 @@ def _hoist_test_calls(fn: ast.AST, helpers, cls, counter: List[int]) -> int:
     return n
 
 
+def _comp_only_names(body: List[ast.stmt]) -> Set[str]:
+    """names that are bound by comprehensions only (scoped to the comprehension)"""
+    comp: Set[int] = set()
+    for s_ in body:
+        for x in _walk_scope(s_):
+            if isinstance(x, ast.comprehension):
+                for y in ast.walk(x.target):
+                    comp.add(id(y))
+    names_c: Set[str] = set()
+    names_o: Set[str] = set()
+    for s_ in body:
+        for x in _walk_scope(s_):
+            if isinstance(x, ast.Name) and isinstance(x.ctx, (ast.Store, ast.Del)):
+                (names_c if id(x) in comp else names_o).add(x.id)
+    return names_c - names_o
+
+
+def _instantiate(h: "_Helper", env: Dict[str, ast.AST], caller_names: Set[str],
+                 counter: List[int], force: Optional[Dict[str, str]] = None
+                 ) -> Tuple[List[ast.stmt], List[ast.stmt]]:
+    """(pre-assignments, body) of helper ``h`` for the argument binding ``env``: locals that clash
+    with a name of the caller get a fresh suffix, parameters that are assigned to are copied."""
+    counter[0] += 1
+    suffix = f"_h{counter[0]}"
+    body = copy.deepcopy(_strip_doc(h.node.body))  # type: ignore[attr-defined]
+    stored = {x.id for s_ in body for x in _walk_scope(s_)
+              if isinstance(x, ast.Name) and isinstance(x.ctx, ast.Store)}
+    env = dict(env)
+    pre: List[ast.stmt] = []
+    for p_ in list(env):
+        if p_ in stored:
+            pre.append(ast.Assign(targets=[ast.Name(id=p_ + suffix, ctx=ast.Store())],
+                                  value=copy.deepcopy(env[p_])))
+            env[p_] = ast.Name(id=p_ + suffix, ctx=ast.Load())
+    force = force or {}
+    comp_only = {c_ for c_ in _comp_only_names(body) if c_ not in env}
+    ren = {nm: (force[nm] if nm in force else
+                (nm + suffix if nm in caller_names or nm in env else nm))
+           for nm in stored if nm not in comp_only}
+    caller_names |= set(ren.values())
+
+    class _Ren(ast.NodeTransformer):
+        def visit_Name(self, node: ast.Name) -> ast.AST:
+            if node.id in ren and (isinstance(node.ctx, (ast.Store, ast.Del)) or
+                                   node.id not in env):
+                return ast.copy_location(ast.Name(id=ren[node.id], ctx=node.ctx), node)
+            return node
+    body = [_SubstNames(env).visit(_Ren().visit(s_)) for s_ in body]
+    return pre, body
+
+
+def _is_tail(fn: ast.AST, st: ast.stmt) -> bool:
+    """Nothing of ``fn`` runs after ``st`` (last statement of its block, through enclosing ifs)."""
+    def rec(block: List[ast.stmt]) -> Optional[bool]:
+        for i, s_ in enumerate(block):
+            if s_ is st:
+                return i == len(block) - 1
+            if isinstance(s_, ast.If):
+                for br in (s_.body, s_.orelse):
+                    r = rec(br)
+                    if r is not None:
+                        return r and i == len(block) - 1
+            elif any(x is st for x in ast.walk(s_)):
+                return False  # inside a loop / try / with
+        return None
+    return bool(rec(fn.body))  # type: ignore[attr-defined]
+
+
+def _inline_generators(fn: ast.AST, helpers, cls, counter: List[int],
+                       caller_names: Set[str]) -> int:
+    """Consumers of a NEW generator helper: `for t in g(..): body`, `x.extend(g(..))`,
+    `x += g(..)`, `v = list(g(..))` (tuple / dict / NamedItemList alike) and `yield from g(..)`:
+    the generator's body is put in place, each `yield e` becoming the consumer's action."""
+    n = 0
+
+    class _Y(ast.NodeTransformer):
+        def __init__(self, make):
+            self.make = make
+
+        def visit_Expr(self, node: ast.Expr):
+            if isinstance(node.value, ast.Yield):
+                return self.make(node.value.value if node.value.value is not None
+                                 else ast.Constant(value=None))
+            return node
+
+        def visit_FunctionDef(self, node):
+            return node
+        visit_Lambda = visit_FunctionDef
+
+    for block in list(_blocks(fn)):
+        i = 0
+        while i < len(block):
+            st = block[i]
+            gcall = None
+            kind = ""
+            extra: Dict[str, object] = {}
+            if isinstance(st, ast.For) and isinstance(st.iter, ast.Call) and not st.orelse:
+                gcall, kind = st.iter, "for"
+            elif isinstance(st, ast.Expr) and isinstance(st.value, ast.YieldFrom) and isinstance(
+                    st.value.value, ast.Call):
+                gcall, kind = st.value.value, "yieldfrom"
+            elif isinstance(st, ast.Expr) and isinstance(st.value, ast.Call) and isinstance(
+                    st.value.func, ast.Attribute) and st.value.func.attr == "extend" and len(
+                        st.value.args) == 1 and isinstance(st.value.args[0], ast.Call):
+                gcall, kind = st.value.args[0], "extend"
+                extra["acc"] = st.value.func.value
+            elif isinstance(st, ast.AugAssign) and isinstance(st.op, ast.Add) and isinstance(
+                    st.value, ast.Call):
+                gcall, kind = st.value, "extend"
+                extra["acc"] = st.target
+            elif isinstance(st, (ast.Assign, ast.AnnAssign)) and isinstance(
+                    getattr(st, "value", None), ast.Call) and len(st.value.args) == 1 and \
+                    not st.value.keywords and isinstance(st.value.args[0], ast.Call) and \
+                    call_name_(st.value) in ("list", "tuple", "dict", "NamedItemList", "set",
+                                             "frozenset") and (
+                        isinstance(st, ast.AnnAssign) or len(st.targets) == 1):
+                gcall, kind = st.value.args[0], "collect"
+                extra["ctor"] = call_name_(st.value)
+                extra["target"] = st.targets[0] if isinstance(st, ast.Assign) else st.target
+            if gcall is None:
+                i += 1
+                continue
+            # list(g()) wrapped once more by the consumer forms above
+            if isinstance(gcall, ast.Call) and call_name_(gcall) in ("list", "tuple") and len(
+                    gcall.args) == 1 and isinstance(gcall.args[0], ast.Call) and kind in (
+                        "for", "extend"):
+                gcall = gcall.args[0]
+            h, recv = _helper_of_call(gcall, helpers, cls)
+            if h is None or not getattr(h, "gen", False):
+                i += 1
+                continue
+            if h.gen_returns and not (kind == "yieldfrom" and _is_tail(fn, st)):
+                i += 1
+                continue
+            env = h.bind(gcall, recv)
+            if env is None:
+                i += 1
+                continue
+            if kind == "for":
+                if _loop_level_jumps(st.body):
+                    i += 1
+                    continue
+                tg, fbody = st.target, st.body
+
+                def make(v, tg=tg, fbody=fbody):
+                    if isinstance(v, ast.Name) and isinstance(tg, ast.Name) and v.id == tg.id:
+                        return copy.deepcopy(fbody)
+                    return [ast.Assign(targets=[copy.deepcopy(tg)], value=v)] + \
+                        copy.deepcopy(fbody)
+                head: List[ast.stmt] = []
+                # every yield hands out the same helper local: it is the loop variable
+                yv = {y.value.id if isinstance(y.value, ast.Name) else None
+                      for y in _walk_scope(h.node) if isinstance(y, ast.Yield)}
+                if isinstance(tg, ast.Name) and len(yv) == 1 and None not in yv:
+                    y0 = yv.pop()
+                    hnames = {x.id for x in _walk_scope(h.node) if isinstance(x, ast.Name)}
+                    if y0 not in h.params and (tg.id == y0 or tg.id not in hnames):
+                        extra["force"] = {y0: tg.id}
+            elif kind == "yieldfrom":
+                def make(v):
+                    return [ast.Expr(value=ast.Yield(value=v))]
+                head = []
+            elif kind == "extend":
+                acc = extra["acc"]
+
+                def make(v, acc=acc):
+                    return [ast.Expr(value=ast.Call(
+                        func=ast.Attribute(value=copy.deepcopy(acc), attr="append",
+                                           ctx=ast.Load()), args=[v], keywords=[]))]
+                head = []
+            else:
+                tgt = extra["target"]
+                ctor = extra["ctor"]
+                if not isinstance(tgt, ast.Name):
+                    i += 1
+                    continue
+                if ctor == "dict":
+                    def make(v, tgt=tgt):
+                        if isinstance(v, ast.Tuple) and len(v.elts) == 2:
+                            return [ast.Assign(targets=[ast.Subscript(
+                                value=ast.Name(id=tgt.id, ctx=ast.Load()), slice=v.elts[0],
+                                ctx=ast.Store())], value=v.elts[1])]
+                        return [ast.Expr(value=ast.Call(
+                            func=ast.Attribute(value=ast.Name(id=tgt.id, ctx=ast.Load()),
+                                               attr="update", ctx=ast.Load()),
+                            args=[ast.List(elts=[v], ctx=ast.Load())], keywords=[]))]
+                    init: ast.AST = ast.Dict(keys=[], values=[])
+                else:
+                    def make(v, tgt=tgt):
+                        return [ast.Expr(value=ast.Call(
+                            func=ast.Attribute(value=ast.Name(id=tgt.id, ctx=ast.Load()),
+                                               attr="append", ctx=ast.Load()),
+                            args=[v], keywords=[]))]
+                    init = ast.List(elts=[], ctx=ast.Load()) if ctor in (
+                        "list", "tuple", "set", "frozenset") else ast.Call(
+                            func=ast.Name(id=ctor, ctx=ast.Load()), args=[], keywords=[])
+                head = [ast.Assign(targets=[ast.Name(id=tgt.id, ctx=ast.Store())], value=init)]
+            pre, body = _instantiate(h, env, caller_names, counter,
+                                     extra.get("force"))  # type: ignore[arg-type]
+            body = [x for s_ in body for x in (lambda r: r if isinstance(r, list) else [r])(
+                _Y(make).visit(s_))]
+            if kind == "yieldfrom":
+                # nested `yield from` of the helper stay as they are
+                pass
+            new = head + pre + body
+            for s_ in new:
+                for x in ast.walk(s_):
+                    if not hasattr(x, "lineno"):
+                        ast.copy_location(x, st)
+            block[i:i + 1] = new or [ast.Pass()]
+            n += 1
+            i += len(new) or 1
+    if n:
+        ast.fix_missing_locations(fn)
+    return n
+
+
+def call_name_(c: ast.AST) -> str:
+    if not isinstance(c, ast.Call):
+        return ""
+    f = c.func
+    if isinstance(f, ast.Subscript):
+        f = f.value
+    return f.attr if isinstance(f, ast.Attribute) else (f.id if isinstance(f, ast.Name) else "")
+
+
 def _inline_proc_calls(fn: ast.AST, helpers, cls, counter: List[int]) -> int:
     n = _hoist_test_calls(fn, helpers, cls, counter)
     # names the caller already uses: a local of an inlined helper keeps its own name unless it
@@ -1120,6 +1354,7 @@ def _inline_proc_calls(fn: ast.AST, helpers, cls, counter: List[int]) -> int:
     for v_ in (a_.vararg, a_.kwarg):
         if v_ is not None:
             caller_names.add(v_.arg)
+    n += _inline_generators(fn, helpers, cls, counter, caller_names)
     for block in list(_blocks(fn)):
         i = 0
         while i < len(block):
@@ -1278,9 +1513,10 @@ def _inline_proc_calls(fn: ast.AST, helpers, cls, counter: List[int]) -> int:
                     pre.append(ast.Assign(targets=[ast.Name(id=p + suffix, ctx=ast.Store())],
                                           value=copy.deepcopy(env[p])))
                     env[p] = ast.Name(id=p + suffix, ctx=ast.Load())
+            comp_only = {c_ for c_ in _comp_only_names(body) if c_ not in env}
             ren = {nm: (same[nm] if nm in same else
                         (nm + suffix if nm in caller_names or nm in env else nm))
-                   for nm in stored}
+                   for nm in stored if nm not in comp_only or nm in same}
             caller_names |= set(ren.values())
             for p in same:
                 env.pop(p, None)
@@ -1500,5 +1736,45 @@ def inline_helpers(tree: ast.Module, modname: str, ref_functions: Set[str]) -> i
         cls = parts[0] if len(parts) >= 2 and parts[0][:1].isupper() else None
         process(fn, cls, {})
     if n:
+        # helpers whose every use was folded back are no longer part of the program: rules that
+        # scan all functions would otherwise see their bodies a second time, out of context
+        hnodes = {id(h.node): h for h in helpers.values()}
+        inside: Set[int] = set()
+        for h in helpers.values():
+            for x in ast.walk(h.node):
+                inside.add(id(x))
+        used: Set[str] = set()
+        for x in ast.walk(tree):
+            if id(x) in inside:
+                continue
+            if isinstance(x, ast.Name):
+                used.add(x.id)
+            elif isinstance(x, ast.Attribute):
+                used.add(x.attr)
+        # a helper used by another helper that stays is kept as well
+        changed_ = True
+        keep = {id(h.node) for h in helpers.values() if h.node.name in used}  # type: ignore
+        while changed_:
+            changed_ = False
+            for h in helpers.values():
+                if id(h.node) in keep:
+                    for x in ast.walk(h.node):
+                        nm = x.id if isinstance(x, ast.Name) else (
+                            x.attr if isinstance(x, ast.Attribute) else None)
+                        for h2 in helpers.values():
+                            if nm == h2.node.name and id(h2.node) not in keep:  # type: ignore
+                                keep.add(id(h2.node))
+                                changed_ = True
+
+        def prune(body: List[ast.stmt]) -> List[ast.stmt]:
+            out = []
+            for st in body:
+                if id(st) in hnodes and id(st) not in keep:
+                    continue
+                if isinstance(st, ast.ClassDef):
+                    st.body = prune(st.body) or [ast.Pass()]
+                out.append(st)
+            return out
+        tree.body = prune(tree.body)
         ast.fix_missing_locations(tree)
     return n
